@@ -10,6 +10,35 @@ LEVEL = "proof"
 CELLS = [(k, s) for k in ("i", "u") for s in (1, 2, 4, 8)] + [("f", 4), ("f", 8)]
 
 
+def regenerate(res):
+    """T4: the extension's element-type table -> coq/Gen/DtypeTable.v"""
+    import sys
+    sys.path.insert(0, os.path.join(common.VERIF, "translate"))
+    import c2gallina
+    import dtype2gallina
+    try:
+        text = dtype2gallina.translate(common.REPO)
+    except c2gallina.Unsupported as e:
+        res.broken.append("translator T4 (dtype2gallina) rejects get_hdf5_data_type: %s" % e)
+        return
+    common.write_if_changed(os.path.join(common.COQ, "Gen", "DtypeTable.v"), text)
+
+
+def stored_type(path, cx):
+    """(kind, size, big-endian) of the component type HDF5 stores in rf_data"""
+    import h5py
+    with h5py.File(path, "r") as h:
+        t = h["rf_data"].id.get_type()
+        if cx:
+            t = t.get_member_type(0)
+        cls = t.get_class()
+        if cls == h5py.h5t.FLOAT:
+            k = "f"
+        else:
+            k = "i" if t.get_sign() == h5py.h5t.SGN_2 else "u"
+        return [k, t.get_size(), int(t.get_order() == h5py.h5t.ORDER_BE)]
+
+
 def layouts(cfg):
     """write sequences (relative start, length) with a gap inside a file, at the head of the first file,
     at the tail of the last, and spanning whole files"""
@@ -43,6 +72,7 @@ def run(res):
                 "continuous+compression/checksum against gapped with the same filters; non-trivial = distinct case")
     res.extra["exhaustive"] = True
     n_cells = 0
+    dtype_seen = {}
     for kind, size in CELLS:
         for order in ("<", ">"):
             if size == 1 and order == ">":
@@ -72,6 +102,9 @@ def run(res):
                           m = wl.abs_of_history(cfg0, ops, reports)
                           exp = wl.expected_with_fill(cfg0, m)
                           files = wl.dump_files(chdir)
+                          if files and (kind, size, order, cx) not in dtype_seen:
+                              dtype_seen[(kind, size, order, cx)] = (stored_type(files[0]["path"], cx),
+                                                                     [ord(w.byteorder), ord(w.realdtype.kind), w.realdtype.itemsize], hist)
                           # a file exists only if at least one slot was written
                           want_files = sorted({wl.F_of(cfg0, k) for k in m})
                           if [f["ms"] for f in files] != want_files:
@@ -106,6 +139,27 @@ def run(res):
                                                 "DigitalRFReader.read over whole files does not return written data + missing values",
                                                 hist, [(s, len(t)) for s, t in runs], sorted((int(k), len(v)) for k, v in got.items()))
     res.sample({"cells_x_layouts": n_cells})
+    # the regenerated element-type table (Gen/DtypeTable.v) and the hand-written description of what the
+    # Python front end passes (Model/Dtype.v) against what the real writer passed and HDF5 stored
+    keys = sorted(dtype_seen)
+    kc = {"i": "KI", "u": "KU", "f": "KF"}
+    terms = []
+    for (kind, size, order, cx) in keys:
+        d = "(mkNp %s %d %s)" % (kc[kind], size, "true" if order == ">" else "false")
+        terms.append("(let d := %s in [byteorder_char d; kind_char d; nsz d] ++ match get_hdf5_data_type (byteorder_char d) (kind_char d) (nsz d) "
+                     "with Some n => match h5_predef n with Some (k, sz, be) => [1; (match k with KI => 105 | KU => 117 | KF => 102 end); sz; "
+                     "(if be then 1 else 0)] | None => [0] end | None => [-1] end)" % d)
+    outs = common.run_model_vm("From DRF Require Import Model.FillValue Model.Dtype Gen.DtypeTable.", terms)
+    for key, out in zip(keys, outs):
+        st, passed, hist = dtype_seen[key]
+        res.count("dtype_table_rows_compared")
+        impl = passed + [1, ord(st[0]), st[1], st[2]]
+        if key[1] == 1:
+            out, impl = out[:6], impl[:6]        # one-byte types: the byte order of the stored type is immaterial
+        if out != impl:
+            res.disagree("element-type table (regenerated from get_hdf5_data_type) / front-end description vs what the real writer "
+                         "passed and HDF5 stored", dict(hist, dtype=list(key)), out, impl)
+            break
 
     # chunked continuous == gapped representation (same filters), and model correspondence in all modes
     def oracle(cfg, ops, reports, files, chdir, mrep, mfiles, hist):
@@ -128,6 +182,8 @@ def run(res):
                               hist, [(f["ms"], f["rows"]) for f in f2], [(f["ms"], f["rows"]) for f in files])
 
     wl.run_histories(res, 60 if res.tier == "quick" else 1500, oracle, modes=["cont", "cont+comp", "cont+cksum", "cont"])
+    res.trusted += ["translate/dtype2gallina.py (T4): if/else-chain of get_hdf5_data_type from clang's JSON AST, fail-closed; "
+                    "Model/Dtype.v h5_predef is HDF5's meaning of its predefined types (compared with h5py on every run)"]
     res.assumptions += ["HDF5 applies the fill value it was given to every unwritten element of a contiguous dataset",
                         "Model/FillValue.v is a hand model of digital_rf_set_fill_value on a little-endian host, tied by the complete cell enumeration above"]
 
